@@ -580,6 +580,16 @@ class Expr:
                 # We make no promise to dive through a
                 # list operand in general, but NEED to
                 # do so for the `Fused.exprs` operand.
+                if not substitute_literal and any(
+                    op._name == old._name for op in operand
+                ):
+                    # `old` is a member of this fused group, not one of its
+                    # external dependencies. The group computes it on its own;
+                    # replacing the member (e.g. by a new Fused of a copy of
+                    # these expressions outside of the group) would change what
+                    # the group depends on.
+                    new_exprs.append(operand)
+                    continue
                 val = []
                 for op in operand:
                     val.append(op._substitute(old, new, _seen))
